@@ -6,7 +6,7 @@
 //! state; every transition is an application of a real API.
 use crypto_bigint::modular::{BoxedMontyParams, MontyParams};
 use crypto_bigint::subtle::{Choice, ConditionallySelectable, CtOption};
-use crypto_bigint::{BoxedUint, Encoding, Int, Limb, NonZero, Odd, Random, Reciprocal, Uint, Zero};
+use crypto_bigint::{ArrayEncoding, BoxedUint, Encoding, Int, Limb, NonZero, Odd, Random, Reciprocal, Uint, Zero};
 use core::num::{NonZeroU128, NonZeroU16, NonZeroU32, NonZeroU64, NonZeroU8};
 use std::collections::BTreeSet;
 use vcommon::rng::{PanicScriptRng, ScriptRng};
@@ -103,7 +103,7 @@ fn values(n: usize, seed: u64, th: bool) -> Vec<Limbs> {
 
 fn explore<const N: usize>(ctx: &Ctx)
 where
-    Uint<N>: Encoding,
+    Uint<N>: Encoding + ArrayEncoding,
 {
     let wname = format!("N={N}");
     ctx.seq("wrapper_routes", &wname, |l| {
@@ -218,6 +218,9 @@ where
             let exp = if zero { None } else { Some(a) };
             ex.decoded("NonZero::from_be_bytes", guard(|| ct(NonZero::<Uint<N>>::from_be_bytes(be)).map(|x| w(x.as_ref()))), exp, inp.clone());
             ex.decoded("NonZero::from_le_bytes", guard(|| ct(NonZero::<Uint<N>>::from_le_bytes(le)).map(|x| w(x.as_ref()))), exp, inp.clone());
+            // hybrid-array decoders of the wrapper (stated byte order)
+            ex.decoded("NonZero::from_be_byte_array", guard(|| ct(NonZero::<Uint<N>>::from_be_byte_array(ua.to_be_byte_array())).map(|x| w(x.as_ref()))), exp, inp.clone());
+            ex.decoded("NonZero::from_le_byte_array", guard(|| ct(NonZero::<Uint<N>>::from_le_byte_array(ua.to_le_byte_array())).map(|x| w(x.as_ref()))), exp, inp.clone());
             if !zero {
                 ex.produce("NonZero::from_be_bytes", "any", Kind::NzUint, ct(NonZero::<Uint<N>>::from_be_bytes(be)).map(|x| w(x.as_ref())).unwrap_or(vec![0; N]), inp.clone());
                 ex.produce("NonZero::from_le_bytes", "any", Kind::NzUint, ct(NonZero::<Uint<N>>::from_le_bytes(le)).map(|x| w(x.as_ref())).unwrap_or(vec![0; N]), inp.clone());
